@@ -31,6 +31,10 @@ def _worker_init(prop_name):
 
     _PROP = importlib.import_module(f"sim.props.{prop_name}")
     order.install()
+    if getattr(_PROP, "USE_PRISTINE", False):
+        from . import pristine
+
+        pristine.start(fresh=True)  # before this worker runs anything
 
 
 def _worker_run(job, timeout):
